@@ -253,7 +253,19 @@ async fn scenario(name: &str) -> Result<String, String> {
 /// child process for the signal scenarios: a server with OS signals enabled
 pub fn child() {
     // `e2e_child c`: the server has handled other commands (a pause and a resume, both acknowledged) before the signal arrives
-    let cmds_first = std::env::args().nth(2).as_deref() == Some("c");
+    let mode = std::env::args().nth(2).unwrap_or_default();
+    let cmds_first = mode.contains('c');
+    if mode.contains('t') {
+        // `e2e_child t`: the server runs in a plain Tokio runtime, without an actix System
+        let rt = tokio::runtime::Builder::new_current_thread().enable_all().build().unwrap();
+        rt.block_on(async {
+            let (srv, addr) = build(1, 30, true);
+            println!("READY {}", addr.port());
+            let _ = srv.await;
+        });
+        println!("SERVER_DONE");
+        return;
+    }
     let sys = actix_rt::System::new();
     sys.block_on(async {
         let (srv, addr) = build(1, 30, true);
@@ -274,9 +286,11 @@ pub fn child() {
 
 fn signal_scenario(name: &str) -> Result<String, String> {
     // "<scenario>_c": the same after a pause() and a resume() have been handled
-    let (name, cmds_first) = match name.strip_suffix("_c") {
-        Some(n) => (n, true),
-        None => (name, false),
+    // "<scenario>_t": the same with the server in a plain Tokio runtime (no actix System)
+    let (name, cmds_first, plain) = match (name.strip_suffix("_c"), name.strip_suffix("_t")) {
+        (Some(n), _) => (n, true, false),
+        (_, Some(n)) => (n, false, true),
+        _ => (name, false, false),
     };
     let (sig, held, graceful) = match name {
         "signal_int" => (libc::SIGINT, true, false),
@@ -288,7 +302,7 @@ fn signal_scenario(name: &str) -> Result<String, String> {
     let exe = std::env::current_exe().map_err(|e| e.to_string())?;
     let mut ch = Command::new(exe)
         .arg("e2e_child")
-        .arg(if cmds_first { "c" } else { "-" })
+        .arg(if cmds_first { "c" } else if plain { "t" } else { "-" })
         .stdout(Stdio::piped())
         .stderr(Stdio::null())
         .spawn()
